@@ -221,6 +221,9 @@ def run(prop, argv):
                 cfg["restoreEach"] = bool(plan["cfg"].get("restoreEach"))
                 cfg["noRetention"] = (prop == "C07" and i % 5 == 0)
                 cases.append({"id": i, "cfg": cfg, "sched": d, "label": label})
+        if replay_path and cases[0]["cfg"].get("daemon", {}).get("monMs", 0) > 0:
+            corelib.daemon_run(rep, binary, wd, cases, prop)     # a daemon-mode replay is judged by DaemonObs only
+            return rep.finish()
         by_id = {c["id"]: c for c in cases}
         t0 = time.time()
         out, info = corelib.run_cases(binary, wd, "cases", [{k: c[k] for k in ("id", "cfg", "sched")} for c in cases])
@@ -254,6 +257,15 @@ def run(prop, argv):
             rep.sample({"source": c["label"], "cfg": c["cfg"], "schedule": c["sched"][:30],
                         "observed": [[e["op"], e["res"][:40], e["ack"], e["remote"]] for e in evs[:12]]})
         corelib.classify(rep, prop, by_id, events, verdicts, hazards, set(plan["invariants"]), prop)
+        if not replay_path:
+            # daemon mode: the same clauses with the Store's own monitors doing the compactions / retention passes / uploads
+            # on short intervals next to a live application writer (C05: storage faults armed in bursts meanwhile)
+            t3 = time.time()
+            dcases = corelib.daemon_cases(seed + {"C05": 5, "C06": 6, "C07": 7}[prop], 12 if not thorough else 150, first_id=len(cases),
+                                          faults="all" if prop == "C05" else "none")
+            corelib.daemon_run(rep, binary, wd, dcases, prop)
+            rep.cov["traces_validated_against_impl"] += len(dcases)
+            rep.cov["phase_s"]["daemon_mode"] = round(time.time() - t3, 1)
         return rep.finish()
     finally:
         shutil.rmtree(wd, ignore_errors=True)
